@@ -108,6 +108,10 @@ def convert(model: nn.Module,
 
     # Symbolic Tracing
     tracer = MPSTracer()
+    # tracing and shape propagation require eval mode, but the conversion must not leave the
+    # model that was passed in (and the sub-modules it shares with the result) in a different
+    # training/eval mode from the one it was found in
+    training_flags = {m: m.training for m in model.modules()}
     graph = tracer.trace(model.eval())
     name = model.__class__.__name__
     mod = fx.GraphModule(tracer.root, graph, name)
@@ -138,6 +142,8 @@ def convert(model: nn.Module,
             mod.to(input_example[0].device)(*input_example)
         else:
             mod.to(input_example.device)(input_example)
+    for m, flag in training_flags.items():
+        m.training = flag
     return mod, nlf, ulf
 
 
